@@ -195,7 +195,7 @@ func (r *Runner) execMacro(a Action) {
 				exempt = true // a rejoining server the property makes no claim about may disrupt
 			}
 			if w.Now()-ir.since >= 5*int64(r.maxHB()/time.Millisecond) {
-				r.Feat["isolation>=5-election-timeouts"]++
+				r.feat("isolation>=5-election-timeouts")
 			}
 		}
 		// a latent disruptor: some other server (e.g. one without pre-vote
@@ -329,7 +329,7 @@ func (r *Runner) sampleProfile() {
 		if lc.steppedAt == 0 {
 			if st != raft.Leader {
 				lc.steppedAt = now
-				r.Feat["lease-stepdown"]++
+				r.feat("lease-stepdown")
 			} else if now > bound {
 				w.Violate("C13", "R1", "C13/R1/isolated-leader-keeps-leadership-beyond-twice-the-lease",
 					"%s lost its voter majority at %d ms (lease %v) and is still Leader at %d ms (bound %d ms)", lc.in.ID(), lc.t0, lc.lease, now, bound)
@@ -404,7 +404,7 @@ func (r *Runner) sampleProfile() {
 				}
 				w.Violate("C14", "R2", "C14/R2/rejoined-server-is-not-a-follower-of-the-leader", "%s rejoined at %d ms; %d ms later it is %v in term %d following %q (leader %s, term %d)", id, rj.at, now-rj.at, in.R.State(), in.R.CurrentTerm(), lid, rj.leader, rj.term)
 			} else {
-				r.Feat["rejoined-as-follower"]++
+				r.feat("rejoined-as-follower")
 			}
 		}
 	}
@@ -532,7 +532,7 @@ func (r *Runner) finalProfile() {
 			w.ViolateLocked("C18", "R1", "C18/R1/notification-count-differs-from-transitions", "%s/%d: %d leadership gains and %d losses observed, NotifyCh delivered %d values %v", in.ID(), in.Gen, gains, losses, got, rec.vals)
 		}
 		if gains+losses >= 3 {
-			r.Feat["notify:>=3-transitions"]++
+			r.feat("notify:>=3-transitions")
 		}
 		if in.R.State() != raft.Shutdown && r.atRest && got > 0 {
 			isLeader := in.R.State() == raft.Leader
@@ -587,6 +587,6 @@ func (r *Runner) finalProfile() {
 		if !rr.op.Done || rr.op.err != nil || rr.op.inst.DeadLocked() {
 			continue
 		}
-		r.Feat["user-restore-ok"]++
+		r.feat("user-restore-ok")
 	}
 }
